@@ -429,6 +429,7 @@ func pick(r *hx.Rand, from []int, n int) []int {
 
 type genCfg struct {
 	conds bool // may processors carry conditions
+	small bool // directory family: at most 2 connectors and 2 processors per list
 }
 
 func genProc(r *hx.Rand, g genCfg, id int) provx.Proc {
@@ -443,6 +444,9 @@ func genProc(r *hx.Rand, g genCfg, id int) provx.Proc {
 }
 
 func genProcs(r *hx.Rand, g genCfg, max int) []provx.Proc {
+	if g.small && max > 2 {
+		max = 2
+	}
 	ids := pick(r, []int{1, 2, 3, 4, 5}, r.Range(0, max))
 	out := make([]provx.Proc, len(ids))
 	for i, id := range ids {
@@ -467,7 +471,11 @@ func genDLQ(r *hx.Rand) provx.DLQ {
 
 func genPipe(r *hx.Rand, g genCfg) provx.Pipe {
 	p := provx.Pipe{Name: 1 + r.Intn(2), Desc: r.Intn(3), DLQ: genDLQ(r)}
-	for _, id := range pick(r, []int{1, 2, 3, 4}, r.Range(1, 3)) {
+	nc := 3
+	if g.small {
+		nc = 2
+	}
+	for _, id := range pick(r, []int{1, 2, 3, 4}, r.Range(1, nc)) {
 		p.Conns = append(p.Conns, genConn(r, g, id))
 	}
 	p.Procs = genProcs(r, g, 4)
